@@ -734,6 +734,8 @@ class Engine:
                 return s.call_function(q, [v], {}, st, out, node)
             if q is not None:
                 return [(st, VBound(v, attr))]
+            if info.get("builtin_base") == "list" and attr in dir(list):
+                return [(st, VBound(v, attr))]
             if info.get("getattr"):
                 return s.call_method(v, "__getattr__", [VStr(attr)], {}, st, out, node)
             if info.get("closed", True):
@@ -880,6 +882,19 @@ class Engine:
                 if z3.is_int_value(kv) and kv.as_long() in v.d:
                     return [(st, v.d[kv.as_long()])]
             raise OutOfSubset("dict index %r" % (k,))
+        if isinstance(v, VTuple) and v.items and isinstance(v.items[0], VConst) and isinstance(v.items[0].obj, tuple) \
+                and v.items[0].obj == ("iter", "range") and isinstance(k, VInt):
+            ra = v.items[1].items
+            if len(ra) != 1 or not isinstance(ra[0], VInt):
+                raise OutOfSubset("subscript of range with several arguments")
+            n_ = ra[0].t
+            ok = z3.And(k.t < n_, k.t >= -n_)
+            res = []
+            st2 = st.fork(); st2.assume(ok); st2.trace.append("%d:rg1" % node.lineno)
+            res.append((st2, VInt(z3.If(k.t < 0, n_ + k.t, k.t))))
+            st3 = st.fork(); st3.assume(z3.Not(ok)); st3.trace.append("%d:rg0" % node.lineno)
+            s.raise_(st3, "IndexError", out, node)
+            return res
         if isinstance(v, (VCList, VTuple)):
             if not isinstance(k, VInt):
                 raise OutOfSubset("index of concrete sequence with %r" % (k,))
